@@ -1,6 +1,7 @@
 package core
 
 import (
+	"encoding/json"
 	"fmt"
 	"math"
 	"sort"
@@ -1082,4 +1083,39 @@ func (d *mdesc) desc(v any) map[string]any {
 		return n
 	}
 	return map[string]any{"t": "other", "go": fmt.Sprintf("%T", v)}
+}
+
+// State mirrors the probe's "state" op: which cells of the caches are filled.
+func (m *Model) State() map[string]any {
+	keys := func(mm map[string]any) []any {
+		ks := make([]string, 0, len(mm))
+		for k := range mm {
+			ks = append(ks, k)
+		}
+		sort.Strings(ks)
+		out := make([]any, len(ks))
+		for i, k := range ks {
+			out[i] = k
+		}
+		return out
+	}
+	bags := map[string]any{}
+	for n, b := range m.bags {
+		bags[n] = keys(b)
+	}
+	return map[string]any{"t": "state", "shared": keys(m.shared), "params": keys(m.pcache), "bags": bags}
+}
+
+// StateKey is the canonical key of the model state (caches + current overrides).
+func (m *Model) StateKey() string {
+	b, _ := json.Marshal(m.State())
+	ov := []string{}
+	for k, v := range m.ovParam {
+		ov = append(ov, fmt.Sprintf("p:%s=%s:%v", k, v.Kind, v.V))
+	}
+	for k, v := range m.ovSvc {
+		ov = append(ov, fmt.Sprintf("s:%s=%s:%v:%s:%v:%v", k, v.Kind, v.V, v.Ctor, v.Args, v.Deps))
+	}
+	sort.Strings(ov)
+	return string(b) + "|" + strings.Join(ov, ";")
 }
